@@ -16,7 +16,7 @@ EXPLANATION = (
     'Cleared is returned; R18.d the two task bodies have the same callee sequence up to the request/response variant (tabled '
     'difference: one extra unreachable! in notify_after); R18.e Completed is reachable only along the edge on which the shell\'s answer is '
     'InstantArrived / DurationElapsed, and the late Cleared only along its Cleared answer. W18 witnesses (thorough): clear consumes the handle; the handle is not Clone. '
-    'Interleavings of fire / clear / drop / late answers and the bias of select_biased! are not decided. R18.f the select between the shell\'s answer and the clear is biased: no pseudo-random start and the request arm is polled first. R18.i legacy Time::clear and TimerFuture::poll use one process-wide cleared set (the same static).')
+    'Interleavings of fire / clear / drop / late answers and the bias of select_biased! are not decided. R18.f the select between the shell\'s answer and the clear is biased: no pseudo-random start and the request arm is polled first. R18.i legacy Time::clear and TimerFuture::poll use one process-wide cleared set (the same static). R18.j TimerHandle::clear has no panic site and makes one send whose failure is discarded: a clear after the outcome is a no-op.')
 
 
 def check(ctx, rep):
